@@ -294,9 +294,9 @@ class _randobj:
                         SourceInfo(frame.filename, frame.lineno),
                         [model], 
                         [c], 
-                        debug=self.debug,
-                        lint=self.lint,
-                        solve_fail_debug=self.solve_fail_debug)
+                        debug=ro_i.rw_debug,
+                        lint=ro_i.rw_lint,
+                        solve_fail_debug=ro_i.rw_solve_fail_debug)
                 except SolveFailure as e:
                     print(e.diagnostics)
                     raise e
@@ -307,9 +307,12 @@ class _randobj:
                                solve_fail_debug=0):
                 # Ensure the 'model' data structures have been built
                 self.get_model()
-                self.debug = debug
-                self.lint = lint
-                self.solve_fail_debug = solve_fail_debug
+                # Keep the options of the call away from the 
+                # user's own attributes
+                ro_i = self._get_ro_int()
+                ro_i.rw_debug = debug
+                ro_i.rw_lint = lint
+                ro_i.rw_solve_fail_debug = solve_fail_debug
         
                 return self
             
